@@ -32,16 +32,6 @@ func verifBoxBytes(boxType string, n int, large bool) []byte {
 	return in
 }
 
-// VerifRegisteredTypes lets the driver read the live decoder registries.
-func VerifRegisteredTypes() {
-	for k := range decodersSR {
-		vfy.Observe("sr", k)
-	}
-	for k := range decoders {
-		vfy.Observe("rd", k)
-	}
-}
-
 func encodeSWBytes(b Box) ([]byte, error) {
 	sw := bits.NewFixedSliceWriter(int(b.Size()))
 	err := b.EncodeSW(sw)
@@ -51,41 +41,62 @@ func encodeSWBytes(b Box) ([]byte, error) {
 	return sw.Bytes(), sw.AccError()
 }
 
+func encodeWBytes(b Box) ([]byte, error) {
+	var buf bytes.Buffer
+	err := b.Encode(&buf)
+	return buf.Bytes(), err
+}
+
+func decodeEither(in []byte, reader bool) (Box, error) {
+	if reader {
+		return DecodeBox(0, bytes.NewReader(in))
+	}
+	return DecodeBoxSR(0, bits.NewFixedSliceReader(in))
+}
+
+func encodeEither(b Box, reader bool) ([]byte, error) {
+	if reader {
+		return encodeWBytes(b)
+	}
+	return encodeSWBytes(b)
+}
+
+func hdrLen(large bool) int {
+	if large {
+		return 16
+	}
+	return 8
+}
+
 // VerifC01Box: decode -> encode is lossless outside the don't-care bits, and a fixed point.
 func VerifC01Box(boxType string, n int, large bool, reader bool) {
 	in := verifBoxBytes(boxType, n, large)
 	vfy.InputLen(len(in))
-	var b Box
-	var err error
-	if reader {
-		b, err = DecodeBox(0, bytes.NewReader(in))
-	} else {
-		b, err = DecodeBoxSR(0, bits.NewFixedSliceReader(in))
-	}
+	b, err := decodeEither(in, reader)
 	if err != nil {
 		return
 	}
 	vfy.Cover("decoded")
 	vfy.Cover("decoded:" + boxType)
-	var out []byte
-	if reader {
-		var buf bytes.Buffer
-		err = b.Encode(&buf)
-		out = buf.Bytes()
-	} else {
-		out, err = encodeSWBytes(b)
-	}
+	hl := hdrLen(large)
+	// known finding C01-largesize-count: decoders that derive an entry count from the box size
+	// assume an 8-byte header, so a 64-bit header makes them read 8 bytes past the body
+	vfy.Known("C01-largesize-count", large && b.Size() == uint64(len(in)) && b.Type() != "mdat" && boxType != "zzzz")
+	// known finding: an unknown box type with a 64-bit header is written with a 32-bit header
+	// but keeps the size value of the 16-byte form
+	vfy.Known("C01-unknown-largesize", large && boxType == "zzzz")
+	// known finding: FullBox versions other than 0/1 are decoded like version 1 by some decoders
+	// while Size()/Encode treat them like version 0 (cslg, tfdt, ...)
+	vfy.Known("C01-unknown-version", vfy.Or(c01FullBox[boxType] && n > 0 && in[hl] >= 2, boxType == "uuid" && n > 16 && in[hl+16] >= 2))
+	// known finding: senc with sample_count 0 followed by further bytes keeps the box size but not the bytes
+	vfy.Known("C01-senc-zero-samples-trailing", boxType == "senc" && n > 8 && vfy.And(vfy.And(in[hl+4] == 0, in[hl+5] == 0), vfy.And(in[hl+6] == 0, in[hl+7] == 0)))
+	out, err := encodeEither(b, reader)
 	vfy.Assert(err == nil, "re-encoding a decoded box succeeds")
 	if err != nil {
 		return
 	}
-	// lossless outside the don't-care list
-	hl := 8
 	if large {
-		hl = 16
-	}
-	if large {
-		// size normalisation: a large-size header may be written as a 32-bit header
+		// listed normalisation: a large-size header may be written as a 32-bit header
 		vfy.Assert(len(out) == len(in) || len(out) == len(in)-8, "output length (modulo large-size header normalisation)")
 	} else {
 		vfy.Assert(len(out) == len(in), "output length equals input length")
@@ -95,39 +106,241 @@ func VerifC01Box(boxType string, n int, large bool, reader bool) {
 		ohl = 8
 	}
 	if len(out)-ohl == len(in)-hl {
-		mask := c01DontCare(boxType, in[hl:])
-		for i := 0; i < len(in)-hl; i++ {
-			m := byte(0)
-			if i < len(mask) {
-				m = mask[i]
+		if c01Reviewed[boxType] {
+			vfy.Cover("bytes compared")
+			mask := c01DontCare(boxType, in[hl:], b)
+			// known finding: the 16.16 sample rate of audio sample entries keeps only its integer part
+			audio := boxType == "mp4a" || boxType == "enca" || boxType == "ac-3" || boxType == "ec-3"
+			visual := boxType == "avc1" || boxType == "avc3" || boxType == "hvc1" || boxType == "hev1" || boxType == "encv" ||
+				boxType == "vp08" || boxType == "vp09" || boxType == "av01"
+			for i := 0; i < len(in)-hl; i++ {
+				k := ""
+				if audio && (i == 26 || i == 27) {
+					k = "C01-audio-samplerate-fraction"
+				}
+				if visual && (i == 74 || i == 75) {
+					k = "C01-visual-depth"
+				}
+				if k != "" {
+					vfy.Known(k, true)
+				}
+				vfy.Assert((out[ohl+i]^in[hl+i])&^mask[i] == 0, fmt.Sprintf("%s body byte %d survives", boxType, i))
+				if k != "" {
+					vfy.KnownEnd()
+				}
 			}
-			vfy.Assert((out[ohl+i]^in[hl+i])&^m == 0, fmt.Sprintf("body byte %d survives", i))
 		}
 		for i := 4; i < 8; i++ {
 			vfy.Assert(out[i] == in[i], "box type survives")
 		}
 	}
 	// fixed point
-	var b2 Box
-	if reader {
-		b2, err = DecodeBox(0, bytes.NewReader(out))
-	} else {
-		b2, err = DecodeBoxSR(0, bits.NewFixedSliceReader(out))
-	}
+	b2, err := decodeEither(out, reader)
 	vfy.Assert(err == nil, "output decodes again")
 	if err != nil {
 		return
 	}
 	vfy.Assert(vfy.DeepEqual(b, b2), "re-decoded structure equals the first")
-	var out2 []byte
-	if reader {
-		var buf bytes.Buffer
-		err = b2.Encode(&buf)
-		out2 = buf.Bytes()
-	} else {
-		out2, err = encodeSWBytes(b2)
-	}
+	out2, err := encodeEither(b2, reader)
 	vfy.Assert(err == nil, "second encode succeeds")
 	vfy.Assert(bytes.Equal(out, out2), "second encode gives identical bytes")
 	vfy.Observe("out", out)
+}
+
+func be32(b []byte) uint64 {
+	return uint64(b[0])<<24 | uint64(b[1])<<16 | uint64(b[2])<<8 | uint64(b[3])
+}
+
+func be64(b []byte) uint64 {
+	return be32(b[0:4])<<32 | be32(b[4:8])
+}
+
+// headerSize reads the size a written box header announces.
+func headerSize(out []byte) uint64 {
+	if len(out) < 8 {
+		return 0
+	}
+	s := be32(out[0:4])
+	if s == 1 && len(out) >= 16 {
+		return be64(out[8:16])
+	}
+	return s
+}
+
+// checkNested verifies, level by level, that the children of a container occupy the tail of
+// its encoding, each with a header size field equal to its length.
+func checkNested(b Box, out []byte, depth int) {
+	vfy.Assert(headerSize(out) == uint64(len(out)), "header size field equals the box length")
+	cb, ok := b.(ContainerBox)
+	if !ok || depth > 3 {
+		return
+	}
+	children := cb.GetChildren()
+	var total uint64
+	for _, c := range children {
+		total += c.Size()
+	}
+	vfy.Assert(total+8 <= uint64(len(out)), "container size is at least header plus children")
+	if total+8 > uint64(len(out)) {
+		return
+	}
+	if _, generic := b.(*GenericContainerBox); generic {
+		vfy.Assert(total+8 == uint64(len(out)), "generic container size is header plus sum of children")
+	}
+	pos := uint64(len(out)) - total
+	for _, c := range children {
+		cs := c.Size()
+		cout, err := encodeSWBytes(c)
+		vfy.Assert(err == nil, "child encodes")
+		if err != nil {
+			return
+		}
+		vfy.Assert(uint64(len(cout)) == cs, "child bytes written equal child Size()")
+		if uint64(len(cout)) != cs {
+			return
+		}
+		vfy.Assert(bytes.Equal(out[pos:pos+cs], cout), "child occupies its slot in the parent")
+		checkNested(c, cout, depth+1)
+		pos += cs
+	}
+}
+
+// VerifC02Box: Size() == bytes written == header size field, at every level; repeated encodes
+// and Info calls do not change the bytes.
+func VerifC02Box(boxType string, n int, large bool) {
+	in := verifBoxBytes(boxType, n, large)
+	vfy.InputLen(len(in))
+	b, err := DecodeBoxSR(0, bits.NewFixedSliceReader(in))
+	if err != nil {
+		return
+	}
+	vfy.Cover("decoded")
+	vfy.Cover("decoded:" + boxType)
+	s0 := b.Size()
+	sw := bits.NewFixedSliceWriter(int(s0) + 8)
+	err = b.EncodeSW(sw)
+	if err == nil && sw.AccError() == nil {
+		vfy.Cover("encoded")
+		vfy.Assert(uint64(sw.Offset()) == s0, "EncodeSW writes exactly Size() bytes")
+		out := append([]byte{}, sw.Bytes()...)
+		vfy.Assert(b.Size() == s0, "Size() unchanged by EncodeSW")
+		if uint64(len(out)) == s0 {
+			checkNested(b, out, 0)
+		}
+		// any interleaving of Size/Info/Encode/EncodeSW leaves the bytes identical
+		for k := 0; k < 2; k++ {
+			switch vfy.Choose("call", 4) {
+			case 0:
+				_ = b.Size()
+			case 1:
+				var ib bytes.Buffer
+				_ = b.Info(&ib, []string{"", "all:1", "all:2"}[vfy.Choose("level", 3)], "", "  ")
+			case 2:
+				_, _ = encodeWBytes(b)
+			case 3:
+				_, _ = encodeSWBytes(b)
+			}
+		}
+		var buf bytes.Buffer
+		err = b.Encode(&buf)
+		vfy.Assert(err == nil, "Encode succeeds when EncodeSW did")
+		if err == nil {
+			vfy.Assert(uint64(buf.Len()) == s0, "Encode writes exactly Size() bytes")
+			vfy.Assert(bytes.Equal(buf.Bytes(), out), "bytes identical after interleaved Size/Info/Encode calls")
+		}
+		vfy.Assert(b.Size() == s0, "Size() stable")
+	}
+}
+
+// VerifC03Box: the two encoders agree; canonical inputs are accepted by both decoders with
+// equivalent results.
+func VerifC03Box(boxType string, n int, large bool) {
+	in := verifBoxBytes(boxType, n, large)
+	vfy.InputLen(len(in))
+	b1, err1 := DecodeBoxSR(0, bits.NewFixedSliceReader(in))
+	b2, err2 := DecodeBox(0, bytes.NewReader(in))
+	var o1, o2 []byte
+	var e1, e2 error
+	if err1 == nil {
+		vfy.Cover("decoded")
+		vfy.Cover("decoded:" + boxType)
+		o1, e1 = encodeSWBytes(b1)
+		ow, ew := encodeWBytes(b1)
+		vfy.Assert((e1 == nil) == (ew == nil), "Encode and EncodeSW both succeed or both fail (SR-decoded box)")
+		if e1 == nil && ew == nil {
+			vfy.Assert(bytes.Equal(o1, ow), "Encode and EncodeSW give identical bytes (SR-decoded box)")
+		}
+	}
+	if err2 == nil {
+		o2, e2 = encodeWBytes(b2)
+		os, es := encodeSWBytes(b2)
+		vfy.Assert((e2 == nil) == (es == nil), "Encode and EncodeSW both succeed or both fail (reader-decoded box)")
+		if e2 == nil && es == nil {
+			vfy.Assert(bytes.Equal(o2, os), "Encode and EncodeSW give identical bytes (reader-decoded box)")
+		}
+	}
+	if err1 == nil && e1 == nil {
+		canon := bytes.Equal(o1, in)
+		if err2 != nil {
+			vfy.Assert(!canon, "reader path accepts every canonical input the SliceReader path accepts")
+		} else {
+			vfy.Assert(vfy.Implies(canon, vfy.DeepEqual(b1, b2)), "both decode paths give equivalent structures (SR-canonical input)")
+		}
+	}
+	if err2 == nil && e2 == nil {
+		canon := bytes.Equal(o2, in)
+		if err1 != nil {
+			vfy.Assert(!canon, "SliceReader path accepts every canonical input the reader path accepts")
+		} else {
+			vfy.Assert(vfy.Implies(canon, vfy.DeepEqual(b1, b2)), "both decode paths give equivalent structures (reader-canonical input)")
+		}
+	}
+}
+
+// VerifC04Box: untrusted box bytes (symbolic size field and body) never crash, hang or balloon.
+func VerifC04Box(boxType string, n int, large bool, reader bool) {
+	hl := hdrLen(large)
+	in := make([]byte, 0, hl+n)
+	if large {
+		in = append(in, 0, 0, 0, 1)
+	} else {
+		in = append(in, vfy.Bytes("size", 4)...)
+	}
+	in = append(in, boxType...)
+	if large {
+		in = append(in, vfy.Bytes("largesize", 8)...)
+	}
+	in = append(in, vfy.Bytes("body", n)...)
+	vfy.InputLen(len(in))
+	b, err := decodeEither(in, reader)
+	if err != nil {
+		return
+	}
+	vfy.Cover("decoded")
+	vfy.Cover("decoded:" + boxType)
+	var ib bytes.Buffer
+	_ = b.Info(&ib, []string{"", "all:1", "all:2", boxType + ":1"}[vfy.Choose("level", 4)], "", "  ")
+	_, _ = encodeWBytes(b)
+	_, _ = encodeSWBytes(b)
+}
+
+// VerifC01Discover is a development aid (not a registered check): it reports which body bits
+// can change across decode -> encode, to propose entries of the don't-care table for review.
+func VerifC01Discover(boxType string, n int) {
+	in := verifBoxBytes(boxType, n, false)
+	b, err := DecodeBoxSR(0, bits.NewFixedSliceReader(in))
+	if err != nil {
+		return
+	}
+	out, err := encodeSWBytes(b)
+	if err != nil {
+		return
+	}
+	if len(out) != len(in) {
+		vfy.MayDiffer(fmt.Sprintf("%s n=%d LEN out=%d", boxType, n, len(out)-8), 1)
+		return
+	}
+	for i := 8; i < len(in); i++ {
+		vfy.MayDiffer(fmt.Sprintf("%s n=%d byte %03d", boxType, n, i-8), out[i]^in[i])
+	}
 }
